@@ -167,4 +167,150 @@ theorem names_of_expand {ρ} (reqs : List Char → Option ρ) :
           rw [← ih]
           simp
 
+/-! ### parsing interleaved with expansion; the exact domain of success -/
+
+/-- `ParseShootName` on every item -/
+def parseAll : List (List Char) → Option (List Item)
+  | [] => some []
+  | sh :: rest =>
+    match parseShootName sh, parseAll rest with
+    | .ok it, some its => some (it :: its)
+    | _, _ => none
+
+theorem expand_of_parse {ρ} (reqs : List Char → Option ρ) :
+    ∀ (shoots : List (List Char)) (items : List Item) (acc : List (Step ρ)),
+      parseAll shoots = some items → expand reqs shoots acc = expandItems reqs items acc
+  | [], items, acc, h => by
+    simp only [parseAll] at h; cases h; rfl
+  | sh :: rest, items, acc, h => by
+    simp only [parseAll] at h
+    split at h
+    · rename_i it its hp hr
+      cases h
+      simp only [expand, hp, expandItems]
+      cases expandItem reqs acc it with
+      | ok acc' => exact expand_of_parse reqs rest its acc' hr
+      | err e => rfl
+      | panic p => rfl
+    · cases h
+
+theorem parse_of_expand {ρ} (reqs : List Char → Option ρ) :
+    ∀ (shoots : List (List Char)) (acc steps : List (Step ρ)),
+      expand reqs shoots acc = .ok steps → ∃ items, parseAll shoots = some items
+  | [], _, _, _ => ⟨[], rfl⟩
+  | sh :: rest, acc, steps, h => by
+    simp only [expand] at h
+    split at h
+    · cases h
+    · rename_i it hp
+      split at h
+      · rename_i acc' _
+        obtain ⟨its, hits⟩ := parse_of_expand reqs rest acc' steps h
+        exact ⟨it :: its, by simp [parseAll, hp, hits]⟩
+      · cases h
+      · cases h
+
+/-- the descriptions the decoder accepts: every request name is known and every `sleep` item has an executed step
+before it (`seen` = some step has been produced already) -/
+def domOK {ρ} (reqs : List Char → Option ρ) : List Item → Bool → Bool
+  | [], _ => true
+  | it :: rest, seen =>
+    if it.name == sleepName then seen && domOK reqs rest seen
+    else (reqs it.name).isSome && domOK reqs rest (seen || decide (it.cnt > 0))
+
+theorem bumpLast_none {ρ} (acc : List (Step ρ)) (ms : Int) : bumpLast acc ms = none ↔ acc = [] := by
+  unfold bumpLast
+  cases h : acc.getLast? with
+  | none => simp [List.getLast?_eq_none_iff.mp h]
+  | some l =>
+    simp only [reduceCtorEq, false_iff]
+    intro e; subst e; simp at h
+
+theorem bumpLast_nonempty {ρ} (acc acc' : List (Step ρ)) (ms : Int) (h : bumpLast acc ms = some acc') : acc' ≠ [] := by
+  unfold bumpLast at h
+  cases hl : acc.getLast? with
+  | none => rw [hl] at h; cases h
+  | some l => rw [hl] at h; cases h; simp
+
+/-- the decoder succeeds exactly on the descriptions of `domOK` -/
+theorem expandItems_ok_iff {ρ} (reqs : List Char → Option ρ) :
+    ∀ (items : List Item) (acc : List (Step ρ)),
+      (∃ steps, expandItems reqs items acc = .ok steps) ↔ domOK reqs items (!acc.isEmpty) = true
+  | [], acc => by simp [expandItems, domOK]
+  | it :: rest, acc => by
+    simp only [expandItems, domOK, expandItem]
+    by_cases hs : it.name == sleepName
+    · simp only [hs, if_true]
+      cases hb : bumpLast acc it.cnt with
+      | none =>
+        have : acc = [] := (bumpLast_none acc it.cnt).mp hb
+        subst this
+        simp
+      | some acc' =>
+        have hne : acc ≠ [] := fun e => by
+          have := (bumpLast_none acc it.cnt).mpr e; rw [hb] at this; cases this
+        have hne' := bumpLast_nonempty acc acc' it.cnt hb
+        have ih := expandItems_ok_iff reqs rest acc'
+        have e1 : (!acc.isEmpty) = true := by cases acc <;> simp_all
+        have e2 : (!acc'.isEmpty) = true := by cases acc' <;> simp_all
+        simp only [e1, Bool.true_and]
+        rw [e2] at ih
+        exact ih
+    · simp only [hs, Bool.false_eq_true, if_false]
+      cases hr : reqs it.name with
+      | none => simp
+      | some r =>
+        simp only [Option.isSome_some, Bool.true_and]
+        have ih := expandItems_ok_iff reqs rest
+          (acc ++ List.replicate it.cnt.toNat { name := it.name, req := r, sleep := if it.sleep > 0 then it.sleep else 0 })
+        have e : (!(acc ++ List.replicate it.cnt.toNat
+            ({ name := it.name, req := r, sleep := if it.sleep > 0 then it.sleep else 0 } : Step ρ)).isEmpty) =
+            ((!acc.isEmpty) || decide (it.cnt > 0)) := by
+          by_cases hc : it.cnt > 0
+          · have : it.cnt.toNat = (it.cnt.toNat - 1) + 1 := by omega
+            rw [this, List.replicate_succ]
+            cases acc <;> simp [hc]
+          · have : it.cnt.toNat = 0 := by omega
+            simp [this, hc]
+        rw [e] at ih
+        exact ih
+
+/-- every expanded step carries the request definition registered under its name -/
+theorem expandItems_req {ρ} (reqs : List Char → Option ρ) :
+    ∀ (items : List Item) (acc steps : List (Step ρ)), (∀ st ∈ acc, reqs st.name = some st.req) →
+      expandItems reqs items acc = .ok steps → ∀ st ∈ steps, reqs st.name = some st.req
+  | [], acc, steps, hacc, h => by
+    simp only [expandItems] at h; cases h; exact hacc
+  | it :: rest, acc, steps, hacc, h => by
+    simp only [expandItems] at h
+    split at h
+    · rename_i acc' he
+      refine expandItems_req reqs rest acc' steps ?_ h
+      unfold expandItem at he
+      split at he
+      · unfold bumpLast at he
+        cases hl : acc.getLast? with
+        | none => rw [hl] at he; cases he
+        | some l =>
+          rw [hl] at he
+          cases he
+          intro st hst
+          rcases List.mem_append.mp hst with e | e
+          · exact hacc st (List.dropLast_subset acc e)
+          · simp only [List.mem_singleton] at e
+            subst e
+            exact hacc l (List.mem_of_getLast? hl)
+      · split at he
+        · cases he
+        · rename_i r hr
+          cases he
+          intro st hst
+          rcases List.mem_append.mp hst with e | e
+          · exact hacc st e
+          · have := (List.mem_replicate.mp e).2
+            subst this
+            exact hr
+    · cases h
+    · cases h
+
 end Pandora.Proofs.C15
